@@ -1,31 +1,236 @@
-//! Multitree support (C10, C11): node construction, address book, tree walks, locks.
-//! (stub: filled in with the C10 engine)
+//! Multitree support (C08, C10, C11, crash sets): node construction, tree walks through the reader
+//! API, expansion of the tree model, reader locks held across events.
 
 use crate::core::*;
 use crate::exec::*;
 use crate::model::*;
+use parity_db::{NewNode, NodeRef};
+use std::panic::{catch_unwind, AssertUnwindSafe};
 
 #[derive(Default)]
 pub struct AddrBook {}
 
-pub struct HeldLock {}
-
-pub fn to_new_node(_n: &NodeSpec, _col: u8, _ex: &Exec) -> Result<parity_db::NewNode, Fail> {
-	Err(Fail::new("machinery", "trees not implemented".into()))
+/// A fully expanded tree: data and children, recursively (DAGs are expanded at every use).
+#[derive(Clone, Debug, PartialEq, Eq)]
+pub struct Walk {
+	pub data: Vec<u8>,
+	pub children: Vec<Walk>,
 }
 
-pub fn lock(_ex: &mut Exec, _c: u8, _k: &B) -> Result<(), Fail> {
-	Err(Fail::new("machinery", "trees not implemented".into()))
+impl Walk {
+	pub fn render(&self) -> String {
+		if self.children.is_empty() {
+			format!("{}#{:x}", self.data.len(), fnv(&self.data, 3) & 0xffff_ffff)
+		} else {
+			format!(
+				"{}#{:x}({})",
+				self.data.len(),
+				fnv(&self.data, 3) & 0xffff_ffff,
+				self.children.iter().map(|c| c.render()).collect::<Vec<_>>().join(" ")
+			)
+		}
+	}
+	pub fn count(&self) -> usize {
+		1 + self.children.iter().map(|c| c.count()).sum::<usize>()
+	}
 }
 
-pub fn check(_ex: &Exec, _c: u8, _t: &TreeModel, _queue_empty: bool) -> Result<(), Fail> {
+type Reader = std::sync::Arc<ReaderLock>;
+
+pub type ReaderLock = parking_lot::RwLock<Box<dyn parity_db::TreeReader + Send + Sync>>;
+
+/// A tree-reader read lock held across events (C11). The guard is forgotten, the lock released
+/// explicitly on drop.
+pub struct HeldLock {
+	reader: Reader,
+}
+
+impl Drop for HeldLock {
+	fn drop(&mut self) {
+		unsafe { self.reader.force_unlock_read() };
+	}
+}
+
+fn e2f(what: &str) -> impl Fn(parity_db::Error) -> Fail + '_ {
+	move |e| Fail::new("error", format!("{} failed: {}", what, e))
+}
+
+/// Read a whole tree through the reader API. `held` avoids re-locking when the lock is already held.
+pub fn read_tree(ex: &Exec, col: u8, key: &[u8]) -> Result<Option<Walk>, Fail> {
+	let db = ex.db();
+	let tree = db.get_tree(col, key).map_err(e2f("get_tree"))?;
+	let tree = match tree {
+		Some(t) => t,
+		None => return Ok(None),
+	};
+	let already = ex.locks.contains_key(&(col, key.to_vec()));
+	let w = {
+		let guard = if already { None } else { Some(tree.read()) };
+		// when the lock is held by this harness, read through a recursive read lock (no writer can be waiting:
+		// single thread)
+		let g2;
+		let reader: &Box<dyn parity_db::TreeReader + Send + Sync> = match &guard {
+			Some(g) => &**g,
+			None => {
+				g2 = tree.read_recursive();
+				&*g2
+			},
+		};
+		let root = reader.get_root().map_err(e2f("TreeReader::get_root"))?;
+		match root {
+			None => None,
+			Some((data, children)) => {
+				let mut w = Walk { data, children: vec![] };
+				for a in children {
+					w.children.push(read_node(reader.as_ref(), a, 0)?);
+				}
+				Some(w)
+			},
+		}
+	};
+	// direct access API must agree with the reader
+	let spec = &ex.cfg.cols[col as usize];
+	if spec.append_only || spec.direct_access {
+		let direct = db.get_root(col, key).map_err(e2f("get_root"))?;
+		match (&w, &direct) {
+			(None, None) => (),
+			(Some(w), Some((d, ch))) if &w.data == d && w.children.len() == ch.len() => {
+				for (i, a) in ch.iter().enumerate() {
+					let n = db.get_node(col, *a).map_err(e2f("get_node"))?;
+					match n {
+						Some((d, _)) if d == w.children[i].data => (),
+						other => {
+							return Err(Fail::new("mismatch", format!(
+								"get_node(c{}, {:#x}) = {:?} disagrees with the tree reader ({}B)", col, a, other.map(|x| x.0.len()), w.children[i].data.len())))
+						},
+					}
+				}
+			},
+			_ => {
+				return Err(Fail::new("mismatch", format!(
+					"get_root(c{}, {}) = {:?} disagrees with the tree reader {:?}", col, short_hex(key),
+					direct.as_ref().map(|x| (x.0.len(), x.1.len())), w.as_ref().map(|w| w.render()))))
+			},
+		}
+	}
+	Ok(w)
+}
+
+fn read_node(reader: &(dyn parity_db::TreeReader + Send + Sync), addr: u64, depth: usize) -> Result<Walk, Fail> {
+	if depth > 64 {
+		return Err(Fail::new("mismatch", "tree deeper than 64 levels (cycle?)".into()))
+	}
+	let n = reader.get_node(addr).map_err(e2f("TreeReader::get_node"))?;
+	let (data, children) = match n {
+		Some(x) => x,
+		None => return Err(Fail::new("mismatch", format!("dangling child: node at address {:#x} is missing", addr))),
+	};
+	let ch2 = reader.get_node_children(addr).map_err(e2f("TreeReader::get_node_children"))?;
+	if ch2.as_ref() != Some(&children) {
+		return Err(Fail::new("mismatch", format!("get_node_children({:#x}) = {:?} but get_node lists {:?}", addr, ch2, children)))
+	}
+	let mut w = Walk { data, children: vec![] };
+	for a in children {
+		w.children.push(read_node(reader, a, depth + 1)?);
+	}
+	Ok(w)
+}
+
+/// Address of the node (root key, path) in the implementation.
+fn resolve_addr(ex: &Exec, col: u8, root: &[u8], path: &[u32]) -> Result<u64, Fail> {
+	let bad = |why: &str| Fail::new("machinery", format!("cannot resolve existing node {}/{:?}: {}", short_hex(root), path, why));
+	let db = ex.db();
+	let tree = db.get_tree(col, root).map_err(e2f("get_tree"))?.ok_or_else(|| bad("root not found"))?;
+	let already = ex.locks.contains_key(&(col, root.to_vec()));
+	let g = if already { tree.read_recursive() } else { tree.read() };
+	let (_, mut children) = g.get_root().map_err(e2f("get_root"))?.ok_or_else(|| bad("root not readable"))?;
+	let mut addr = 0;
+	for (i, p) in path.iter().enumerate() {
+		addr = *children.get(*p as usize).ok_or_else(|| bad("path out of range"))?;
+		if i + 1 < path.len() {
+			children = g.get_node_children(addr).map_err(e2f("get_node_children"))?.ok_or_else(|| bad("node missing"))?;
+		}
+	}
+	if path.is_empty() {
+		return Err(bad("empty path"))
+	}
+	Ok(addr)
+}
+
+pub fn to_new_node(n: &NodeSpec, col: u8, ex: &Exec) -> Result<NewNode, Fail> {
+	let mut children = vec![];
+	for c in &n.children {
+		children.push(match c {
+			ChildSpec::New(n) => NodeRef::New(to_new_node(n, col, ex)?),
+			ChildSpec::Existing(root, path) => NodeRef::Existing(resolve_addr(ex, col, &root.bytes(), path)?),
+		});
+	}
+	Ok(NewNode { data: n.data.bytes(), children })
+}
+
+pub fn lock(ex: &mut Exec, c: u8, k: &B) -> Result<(), Fail> {
+	let key = k.bytes();
+	if ex.locks.contains_key(&(c, key.clone())) {
+		return Ok(())
+	}
+	let tree = ex.db().get_tree(c, &key).map_err(e2f("get_tree"))?;
+	if let Some(tree) = tree {
+		let g = tree.read();
+		std::mem::forget(g);
+		ex.locks.insert((c, key), HeldLock { reader: tree });
+	}
 	Ok(())
 }
 
-pub fn observe_model(_t: &TreeModel, _u: &[Vec<u8>]) -> String {
-	String::new()
+pub fn expand(t: &TreeModel, root: &[u8]) -> Option<Walk> {
+	let (data, children, _) = t.roots.get(root)?;
+	Some(Walk { data: data.clone(), children: children.iter().map(|c| expand_node(t, *c)).collect() })
 }
 
-pub fn observe_db(_ex: &Exec, _c: u8) -> Result<String, Fail> {
-	Ok(String::new())
+fn expand_node(t: &TreeModel, id: u64) -> Walk {
+	let n = &t.nodes[&id];
+	Walk { data: n.data.clone(), children: n.children.iter().map(|c| expand_node(t, *c)).collect() }
+}
+
+pub fn check(ex: &Exec, c: u8, t: &TreeModel, queue_empty: bool) -> Result<(), Fail> {
+	for k in ex.universe[c as usize].iter() {
+		let exp = expand(t, k);
+		let got = catch_unwind(AssertUnwindSafe(|| read_tree(ex, c, k)))
+			.map_err(|e| Fail::new("panic", format!("tree read panicked: {}", panic_msg(e))))??;
+		match (&exp, &got) {
+			(Some(e), Some(g)) if e == g => (),
+			(Some(e), g) => {
+				return Err(Fail::new("mismatch", format!(
+					"tree c{}/{}: expected {}, got {}", c, short_hex(k), e.render(), g.as_ref().map_or("None".into(), |g| g.render()))))
+			},
+			(None, Some(g)) if queue_empty => {
+				return Err(Fail::new("mismatch", format!(
+					"tree c{}/{}: no live tree in the model and every commit is logged; got {}", c, short_hex(k), g.render())))
+			},
+			_ => (),
+		}
+	}
+	if queue_empty && !ex.cfg.cols[c as usize].append_only {
+		match ex.db().get_num_column_value_entries(c) {
+			Ok(n) =>
+				if n != t.total_entries() {
+					return Err(Fail::new("entries-mismatch", format!(
+						"get_num_column_value_entries(c{}) = {}, model holds {} roots + {} nodes", c, n, t.roots.len(), t.nodes.len())))
+				},
+			Err(_) => (), // multipart entries present: the API cannot count them
+		}
+	}
+	Ok(())
+}
+
+pub fn observe_model(t: &TreeModel, u: &[Vec<u8>]) -> String {
+	u.iter().map(|k| expand(t, k).map_or("-".to_string(), |w| w.render())).collect::<Vec<_>>().join(",")
+}
+
+pub fn observe_db(ex: &Exec, c: u8) -> Result<String, Fail> {
+	let mut v = vec![];
+	for k in ex.universe[c as usize].iter() {
+		v.push(read_tree(ex, c, k)?.map_or("-".to_string(), |w| w.render()));
+	}
+	Ok(v.join(","))
 }
